@@ -77,8 +77,13 @@ func c18Run(c c18Case) (*eng.Fail, int) {
 	vals, addrs := c18Vals(), c18Addrs()
 	s := state.New()
 	type regv struct {
-		e expr.Expr
-		w expr.Width
+		e  expr.Expr
+		w  expr.Width   // write width
+		ws []expr.Width // widths the value went through before (register copies)
+	}
+	var digests []string
+	for _, v := range vals {
+		digests = append(digests, ir.Show(v))
 	}
 	mdl := map[string]regv{}
 	memMdl := memModel{}
@@ -106,7 +111,26 @@ func c18Run(c c18Case) (*eng.Fail, int) {
 			if !ok {
 				return &eng.Fail{Sig: "Apply(RegStore) refused", What: desc + ": Apply returned false for a register write", Case: c}, trans
 			}
-			mdl[op.Key] = regv{v, w}
+			mdl[op.Key] = regv{e: v, w: w}
+		case "copy":
+			// the value read from register src (a for Val 0, b for Val 1) at width w is written to op.Key at width w
+			src := []string{"a", "b"}[op.Val]
+			var got expr.Expr
+			var ok bool
+			p, stack := eng.Catch(func() {
+				if got, ok = s.Regs.Load(expr.Key(src), w); ok {
+					s.Regs.Store(expr.Key(op.Key), got, w)
+				}
+			})
+			trans++
+			if p != nil {
+				return &eng.Fail{Sig: "register copy panic " + eng.PanicSite(stack), What: fmt.Sprintf("%s panics: %v", desc, p), Case: c}, trans
+			}
+			if m, written := mdl[src]; written != ok {
+				return &eng.Fail{Sig: fmt.Sprintf("RegMap.Load presence %v-for-%v", ok, written), What: fmt.Sprintf("%s: Load(%s,%d) ok=%v but written=%v", desc, src, w, ok, written), Case: c}, trans
+			} else if ok {
+				mdl[op.Key] = regv{e: m.e, ws: append(append([]expr.Width{}, m.ws...), m.w, w), w: w}
+			}
 		case "mem":
 			a := addrs[op.Addr]
 			var ok bool
@@ -151,7 +175,11 @@ func c18Run(c c18Case) (*eng.Fail, int) {
 				}
 				for _, v := range valuations[:5] {
 					env := v.env()
-					exp := ir.Adjust(ir.Adjust(ir.Eval(m.e, env), m.w), rw)
+					exp := ir.Eval(m.e, env)
+					for _, pw := range m.ws {
+						exp = ir.Adjust(exp, pw)
+					}
+					exp = ir.Adjust(ir.Adjust(exp, m.w), rw)
 					if g := ir.Eval(got, env); g.Cmp(exp) != 0 {
 						return &eng.Fail{Sig: "RegMap.Load value", What: fmt.Sprintf("after %s: Load(%s,%d) = %s evaluates to %x, expected last write (%s at width %d) = %x", desc, k, rw, ir.Show(got), g, ir.Show(m.e), m.w, exp), Case: c}, trans
 					}
@@ -168,6 +196,12 @@ func c18Run(c c18Case) (*eng.Fail, int) {
 			}
 		}
 	}
+	// values handed in must not have been altered (they may be shared with other holders)
+	for i, v := range vals {
+		if now := ir.Show(v); now != digests[i] {
+			return &eng.Fail{Sig: "State alters-handed-value", What: fmt.Sprintf("the value %s handed to a write is %s after the history", digests[i], now), Case: c}, trans
+		}
+	}
 	_ = big.NewInt
 	_ = memory.NewSparse
 	return nil, trans
@@ -176,7 +210,7 @@ func c18Run(c c18Case) (*eng.Fail, int) {
 func init() {
 	checks["C18"] = eng.Check{
 		Hist: true,
-		Rule: "every history of <=3 operations over {Apply(RegStore) and RegMap.Store to keys a,b with 6 value shapes (constants of width 1,2,4, register load, memory load, binary) at write widths 1,2,4 (and 8,16,40 for three shapes); Apply(MemStore) with constant / foldable / non-constant addresses (6 shapes) at widths 1,2,4} on a fresh real State; after every operation (and, in a second run of each history, only after the last one) Load(k,w) for k in {a,b,c}, w in {1,2,3,4,8,16,33} compared (presence, width, value under 5 valuations) with the last written value adjusted to its write width then to the read width; refused memory writes must leave the full state snapshot unchanged; accepted ones are compared byte-wise. Non-trivial = history with >=2 operations.",
+		Rule: "every history of <=3 operations over {Apply(RegStore) and RegMap.Store to keys a,b with 6 value shapes (constants of width 1,2,4, register load, memory load, binary) at write widths 1,2,4 (and 8,16,40 for three shapes); register copies (the expression read from one register at width 1,2,4 written to the other, so that both hold one object); Apply(MemStore) with constant / foldable / non-constant addresses (6 shapes) at widths 1,2,4} on a fresh real State (quick: <=2 operations over this alphabet and all 3-operation histories over the register-only sub-alphabet of 30 operations); after every operation (and, in a second run of each history, only after the last one) Load(k,w) for k in {a,b,c}, w in {1,2,3,4,8,16,33} compared (presence, width, value under 5 valuations) with the last written value adjusted to its write width then to the read width; refused memory writes must leave the full state snapshot unchanged; accepted ones are compared byte-wise; the values handed in are digest-checked after the history. Non-trivial = history with >=2 operations.",
 		Run: func(r *eng.Run) {
 			var alpha []c18Op
 			for _, k := range []string{"a", "b"} {
@@ -201,11 +235,46 @@ func init() {
 					}
 				}
 			}
+			// register copies (the value read from one register written to the other: both then hold one object)
+			var copies []c18Op
+			for _, w := range []int{1, 2, 4} {
+				copies = append(copies, c18Op{Kind: "copy", Key: "b", Val: 0, W: w}, c18Op{Kind: "copy", Key: "a", Val: 1, W: w})
+			}
+			alpha = append(alpha, copies...)
 			depth := 2
 			if !r.Quick() {
 				depth = 3
 			}
 			r.Note("alphabet=%d depth=%d", len(alpha), depth)
+			if r.Quick() {
+				// depth 3 over the register-only sub-alphabet: constants of widths 1,2,4 and a symbolic value
+				// written to a and b at widths 1,2,4, and the register copies
+				var small []c18Op
+				for _, k := range []string{"a", "b"} {
+					for v := 0; v < 4; v++ {
+						for _, w := range []int{1, 2, 4} {
+							small = append(small, c18Op{Kind: "reg", Key: k, Val: v, W: w})
+						}
+					}
+				}
+				small = append(small, copies...)
+				r.Note("register-only alphabet=%d depth=3", len(small))
+				r.Par(len(small)*len(small), func(ij int) {
+					for _, o3 := range small {
+						c := c18Case{Ops: []c18Op{small[ij/len(small)], small[ij%len(small)], o3}}
+						f, t := c18Run(c)
+						r.Eval(1)
+						r.State(1)
+						r.Trace(1)
+						r.Trans(t)
+						r.Nontrivial(1)
+						if f != nil {
+							r.Report(f)
+							r.Outcome(f.Sig)
+						}
+					}
+				})
+			}
 			r.Par(len(alpha), func(i0 int) {
 				var rec func(ops []c18Op)
 				rec = func(ops []c18Op) {
